@@ -48,7 +48,7 @@ pub fn specs() -> Vec<CheckSpec> {
             level: "exploration",
             owns: &["lookup", "read-exact", "missing-content"],
             runs: (2500, 150_000),
-            rule: "exhaustive core: every history of length <= 4 (quick) / <= 5 (thorough) over {2 keys} x {write short record, write long record, remove} with a full audit (metadata, read, list of every key) after every step through a drawn flavour; then seeded histories of 2-40 ops over 1-6 keys with mixed sync/async flavours and valid foreign-key records planted in bucket files. Non-trivial = history contains a re-write or a removal of a previously written key; distinct by hash of the normalised log. 1 run in 16 is the own-writes family under the system-call scheduler (see C02); 1 run in 14 uses keys whose buckets share index directories, with a lazily consumed listing during which the caller removes one of them for good",
+            rule: "exhaustive core: every history of length <= 4 (quick) / <= 5 (thorough) over {2 keys} x {write short record, write long record, remove} with a full audit (metadata, read, list of every key) after every step through a drawn flavour; then seeded histories of 2-40 ops over 1-6 keys with mixed sync/async flavours and valid foreign-key records planted in bucket files. Non-trivial = history contains a re-write or a removal of a previously written key; distinct by hash of the normalised log. 1 run in 16 is the own-writes family under the system-call scheduler (see C02); 1 run in 14 uses keys whose buckets share index directories, with a lazily consumed listing during which the caller removes one of them for good; 1 run in 16 keeps a streaming writer open on a key while that key's bucket file is unlinked (a full removal by somebody else): the commit is the most recent successful write",
             assumptions: A_COMMON,
         },
         CheckSpec {
@@ -102,7 +102,7 @@ pub fn specs() -> Vec<CheckSpec> {
             level: "exploration",
             owns: &["flavour-diff"],
             runs: (2500, 60_000),
-            rule: "a case = one program (writes with option combinations, reads, extractions, removals, listing, damage steps between ops) executed three times on three fresh caches through the pure sync, async-std and tokio flavours; per-step result records and the final decoded caches must agree. Non-trivial = program has >= 3 API steps incl. >= 1 write; distinct by program hash. Programs include clear followed by further writes, declared integrities of other algorithms (true and false digests, multi-hash), sizes off by one, garbage lines and foreign records with unparsable integrity in buckets",
+            rule: "a case = one program (writes with option combinations, reads, extractions, removals, listing, damage steps between ops) executed three times on three fresh caches through the pure sync, async-std and tokio flavours; per-step result records and the final decoded caches must agree. Non-trivial = program has >= 3 API steps incl. >= 1 write; distinct by program hash. Programs include clear followed by further writes, declared integrities of other algorithms (true and false digests, multi-hash), sizes off by one, garbage lines and foreign records with unparsable integrity in buckets, correctly checksummed lines whose JSON text has a TAB as whitespace, stray files in the cache when it is cleared, index paths that do not resolve",
             assumptions: A_COMMON,
         },
         CheckSpec {
@@ -111,7 +111,7 @@ pub fn specs() -> Vec<CheckSpec> {
             level: "exploration",
             owns: &["abandon-trace", "lookup", "listing", "read-exact", "missing-content"],
             runs: (2500, 120_000),
-            rule: "a case = writers abandoned after creation / after k chunks / while a background write is in flight (async poll-once-then-drop) / after flush / after close / after a rejected commit, interleaved with successful ops; index snapshot before vs after and tmp/ drained. Non-trivial = >= 1 writer abandoned after receiving data. Rejections by a declared size smaller or larger than the data (both sides of 1 MiB) and by a declared integrity that names nothing or names another stored value. Families under the system-call scheduler: abandoned async writers and cancelled futures with their pool threads scheduled, commits failing on every call x errno, and one write future dropped after a single poll followed by shorter writes (abandon-chunk)",
+            rule: "a case = writers abandoned after creation / after k chunks / while a background write is in flight (async poll-once-then-drop) / after flush / after close / after a rejected commit, interleaved with successful ops; index snapshot before vs after and tmp/ drained. Non-trivial = >= 1 writer abandoned after receiving data. Rejections by a declared size smaller or larger than the data (both sides of 1 MiB) and by a declared integrity that names nothing or names another stored value. Families under the system-call scheduler: abandoned async writers and cancelled futures with their pool threads scheduled, commits failing on every call x errno, and one write future dropped after a single poll followed by shorter writes (abandon-chunk). The library's own listing (keys and number of error items) is taken before and after every abandoned writer and must not change; where the history says there is no index yet, an abandoned or rejected writer must not create it",
             assumptions: A_COMMON,
         },
         CheckSpec {
